@@ -14,11 +14,21 @@ import (
 type fl struct{ sig, msg string }
 
 // known-finding signatures sort last so that they never mask another failure of the same op.
+// One finding is open (F14b, Connection-listed Via); the other three signatures of the previous
+// round (c14:stack-te-unflagged, c14:stack-connection-listed-cl-unflagged,
+// c14:stack-loop-missed-after-framing-error) are repaired in /repo and are ordinary violations now.
 var knownSigs = map[string]bool{
-	"c14:stack-te-unflagged":                      true,
-	"c14:stack-connection-listed-cl-unflagged":    true,
 	"c14:stack-connection-listed-via-loop-missed": true,
-	"c14:stack-loop-missed-after-framing-error":   true,
+}
+
+// hasErr: does the error class list ("ok" or classes joined by "+", as errClass writes it) contain c?
+func hasErr(cls, c string) bool {
+	for _, x := range strings.Split(cls, "+") {
+		if x == c {
+			return true
+		}
+	}
+	return false
 }
 
 func first(fs []*fl) *fl {
@@ -109,6 +119,11 @@ func oracleHop(before, after http.Header, skip map[string]bool) []*fl {
 		if skip[lk] || lk == "proxy-connection" {
 			continue
 		}
+		if nonCanonical(k) && (isFixed(lk) || ls[lk]) {
+			// a key written into the map directly in a spelling net/http never produces: outside the
+			// statement's quantifier (header multisets as received); compared with the model only
+			continue
+		}
 		if isFixed(lk) {
 			fs = append(fs, &fl{"c14:hop-by-hop-survived", fmt.Sprintf("hop-by-hop header %q survived (%q)", k, after[k])})
 		} else if ls[lk] {
@@ -124,6 +139,9 @@ func oracleHop(before, after http.Header, skip map[string]bool) []*fl {
 		if skip[lk] || isFixed(lk) || ls[lk] || lk == "proxy-connection" {
 			continue
 		}
+		if nonCanonical(k) && skip[asciiLower(http.CanonicalHeaderKey(k))] {
+			continue
+		}
 		avs, ok := after[k]
 		if !ok || !reflect.DeepEqual(append([]string{}, vs...), append([]string{}, avs...)) {
 			fs = append(fs, &fl{"c14:other-header-changed", fmt.Sprintf("end-to-end header %q changed from %q to %q (present=%v)", k, vs, avs, ok)})
@@ -131,6 +149,10 @@ func oracleHop(before, after http.Header, skip map[string]bool) []*fl {
 	}
 	return fs
 }
+
+// nonCanonical: a map key that is not in the spelling net/http's parser stores (only a modifier
+// writing the map directly can produce it).
+func nonCanonical(k string) bool { return http.CanonicalHeaderKey(k) != k }
 
 var wsSplit = regexp.MustCompile("[ \t]+")
 
@@ -168,8 +190,9 @@ func oracleVia(before, after http.Header, tag, mine, cls string, skip, viaListed
 	}
 	var fs []*fl
 	named := namesInstance(before["Via"], tag)
+	loop := hasErr(cls, "loop")
 	if named {
-		if cls != "loop" || !skip {
+		if !loop || !skip {
 			sig := "c14:loop-missed"
 			if viaListed {
 				sig = "c14:stack-connection-listed-via-loop-missed"
@@ -180,13 +203,12 @@ func oracleVia(before, after http.Header, tag, mine, cls string, skip, viaListed
 		}
 		return fs
 	}
-	if cls == "loop" || skip {
+	if loop || skip {
 		fs = append(fs, &fl{"c14:false-loop", fmt.Sprintf("Via %q does not name %s but outcome is %s skip=%v", before["Via"], tag, cls, skip)})
 		return fs
 	}
-	if cls != "ok" {
-		return fs // flagged for another reason; the Via clause speaks about forwarded requests
-	}
+	// Not stopped, so martian.Proxy forwards it (a request flagged for its framing too: the proxy only
+	// adds a Warning): exactly one entry for this proxy after the existing ones.
 	old := elems(before["Via"])
 	if viaListed {
 		old = nil
@@ -194,7 +216,11 @@ func oracleVia(before, after http.Header, tag, mine, cls string, skip, viaListed
 	got := elems(after["Via"])
 	want := append(append([]string{}, old...), mine)
 	if !eqStrs(got, want) {
-		fs = append(fs, &fl{"c14:via-not-appended", fmt.Sprintf("Via after = %q, want the existing entries %q followed by exactly %q", after["Via"], old, mine)})
+		sig := "c14:via-not-appended"
+		if framingFlagged {
+			sig = "c14:stack-flagged-request-no-via"
+		}
+		fs = append(fs, &fl{sig, fmt.Sprintf("Via after = %q, want the existing entries %q followed by exactly %q (outcome %s)", after["Via"], old, mine, cls)})
 	}
 	return fs
 }
@@ -297,7 +323,10 @@ func oracleStackReq(before, after http.Header, tag, mine, scheme, host, us, remo
 	}
 	// 2. framing
 	teBad, clConflict := framingFacts(before)
-	framingFlagged := cls == "cl" || cls == "te"
+	framingFlagged := hasErr(cls, "cl") || hasErr(cls, "te")
+	if hasErr(cls, "other") {
+		fs = append(fs, &fl{"c14:spurious-error", "the stack returned an error that is neither a framing nor a loop error (" + cls + ")"})
+	}
 	if clConflict && !framingFlagged {
 		sig := "c14:stack-cl-conflict-unflagged"
 		if removed["content-length"] {
